@@ -33,6 +33,7 @@ RELS: T.Dict[T.Tuple[str, str], T.List[str]] = {
     ('K', 'H'): ['input', 'depends', 'dependsidx'], ('K', 'S'): ['input'], ('K', 'K'): ['input', 'depends', 'dependsidx'],
     ('X', 'E'): ['run'],
     ('K', 'X'): ['input'],
+    ('K', 'G'): ['input'],                                       # custom_target(input: <generated list>): the list's rules are emitted for it again
 }
 
 VARIANTS = {'S': ['one', 'two'], 'L': ['static', 'shared', 'both'], 'H': ['plain'], 'G': ['plain'], 'C': ['plain'],
@@ -65,6 +66,8 @@ def _admissible(spec: Spec, kind: str, j: int, rel: str) -> bool:
     if kind in 'LE' and pk == 'K':
         return _header_like(spec, j)
     if kind == 'K' and pk == 'S' and spec[j].variant == 'two':
+        return False
+    if kind == 'K' and pk == 'G' and spec[j].variant != 'plain':
         return False
     if rel == 'link_whole' and spec[j].variant != 'static':
         return False
@@ -208,6 +211,20 @@ def pch_specs() -> T.List[Spec]:
                     spec.append(Node('K', 'plain', ((0, 'input'),)))
                 spec.append(Node(cons[0], cons[1], ((len(spec) - 1, rel),)))
                 out.append(tuple(spec))
+    return out
+
+
+def genct_specs() -> T.List[Spec]:
+    """One generated list consumed by a custom target (input:) and by something else, in both orders: the rules of the list are
+    emitted once per consumer, so the order of the consumers must not matter."""
+    g = Node('G', 'plain', ())
+    k = Node('K', 'plain', ((0, 'input'),))
+    out: T.List[Spec] = []
+    for other in (Node('E', 'plain', ((0, 'src'),)), Node('L', 'static', ((0, 'src'),)), Node('L', 'shared', ((0, 'src'),)), k):
+        out.append((g, other, k))
+        if other is not k:
+            out.append((g, k, other))
+    out.append((g, Node('E', 'plain', ((0, 'src'),)), k, k))
     return out
 
 
@@ -405,13 +422,15 @@ def render(spec: Spec, placement: str = 'root', odd_names: bool = False, with_te
             (p, rel), = n.uses
             pn = spec[p]
             ext = 'h' if _header_like(spec, p) else ('c' if pn.kind == 'S' else 'txt')
+            # a custom target nobody consumes is not part of `all` unless it says so (and would then never be built or explored)
+            bbd = '' if any(q == i for n2 in spec for q, _r in n2.uses) else ', build_by_default: true'
             if rel == 'input':
-                out.append("%s = custom_target('%s', input: %s, output: '%s.%s', command: [cp, '@INPUT@', '@OUTPUT@'])" % (me, me, ref(p), me, ext))
+                out.append("%s = custom_target('%s', input: %s, output: '%s.%s', command: [cp, '@INPUT@', '@OUTPUT@']%s)" % (me, me, ref(p), me, ext, bbd))
             else:
                 # reads the producer's output without naming it as input: only `depends:` orders the two
                 # (the path comes from meson: it depends on the layout option)
-                out.append("%s = custom_target('%s', output: '%s.%s', command: [sh, '-c', 'cp \"$1\" \"$0\"', '@OUTPUT@', %s.full_path()], depends: %s, depend_files: files('%s.stamp'))"
-                           % (me, me, me, ext, ref(p) + ('[0]' if rel == 'dependsidx' else ''), ref(p) + ('[0]' if rel == 'dependsidx' else ''), me))
+                out.append("%s = custom_target('%s', output: '%s.%s', command: [sh, '-c', 'cp \"$1\" \"$0\"', '@OUTPUT@', %s.full_path()], depends: %s, depend_files: files('%s.stamp')%s)"
+                           % (me, me, me, ext, ref(p) + ('[0]' if rel == 'dependsidx' else ''), ref(p) + ('[0]' if rel == 'dependsidx' else ''), me, bbd))
                 files[d + me + '.stamp'] = 'stamp\n'
         elif n.kind in 'LE':
             incs, decls, terms = [], [], []
